@@ -15,7 +15,7 @@ static void body(Ctx& C)
           "else the parameter itself); single look-ups are interleaved with the bindings (of the parameter about to be bound, right before and right after, repeated, of others); elementary substitutions: one binding, every pool parameter queried; non-trivial = >= 2 parameters");
    C.need("elementary_queries_in_domain"); C.need("elementary_queries_outside_domain"); C.need("general_queries_in_domain");
    C.need("general_queries_outside_domain"); C.need("rebindings"); C.need("self_bindings"); C.need("parameter_lists"); C.need("parameters_with_a_default"); C.need("chained_bindings"); C.need("histories_binding_values_of_every_factory_kind");
-   C.need("lookup_of_an_unbound_parameter_right_before_its_first_binding"); C.need("lookup_of_a_bound_parameter_right_before_its_rebinding"); C.need("lookup_right_after_the_binding"); C.need("same_lookup_repeated"); C.need("one_parameter_asked_of_several_substitutions_in_turn"); C.need("lookup_of_another_parameter");
+   C.need("lookup_of_an_unbound_parameter_right_before_its_first_binding"); C.need("lookup_of_a_bound_parameter_right_before_its_rebinding"); C.need("lookup_right_after_the_binding"); C.need("same_lookup_repeated"); C.need("values_handed_over_as_parameters"); C.need("values_that_are_parameters_already_in_the_domain"); C.need("one_parameter_asked_of_several_substitutions_in_turn"); C.need("lookup_of_another_parameter");
    std::set<int> value_kinds;
    Rng seeds(C.seed);
    const int nhist = C.thorough ? 6000 : 120;
@@ -80,9 +80,10 @@ static void body(Ctx& C)
       std::vector<Elem> elems;
       for (int e = 0; e < 6; ++e) {
          const Parameter& p = (e % 2 && !elems.empty()) ? *elems.back().p : *rng.pick(pool);      // pairs binding the same parameter to different values
-         const Expr* v = rng.chance(20) ? static_cast<const Expr*>(rng.pick(pool)) : rng.pick(values);
-         if (rng.chance(10)) v = &p;
-         const Substitution& s = *lex.make_elementary_substitution(p, *v);
+         const Parameter* evp = rng.chance(25) ? rng.pick(pool) : nullptr;
+         if (rng.chance(10)) evp = &p;
+         const Expr* v = evp ? static_cast<const Expr*>(evp) : rng.pick(values);
+         const Substitution& s = evp ? (e % 2 ? *lex.make_elementary_substitution(p, *evp) : *lex.make_elementary_substitution(p, static_cast<const impl::Parameter&>(*evp))) : *lex.make_elementary_substitution(p, *v);
          elems.push_back({ &s, &p, v });
          for (auto q : pool) {
             const Expr& r = s[*q];
@@ -134,11 +135,18 @@ static void body(Ctx& C)
          if (before >= 1) query_one(p, i, model.count(p) ? "lookup_of_a_bound_parameter_right_before_its_rebinding" : "lookup_of_an_unbound_parameter_right_before_its_first_binding");
          if (before == 2) query_one(p, i, "same_lookup_repeated");
          if (before == 3) { query_one(rng.pick(pool), i, "lookup_of_another_parameter"); if (rng.chance(50)) query_one(p, i, "same_lookup_repeated"); }
-         const Expr* v = rng.chance(15) ? static_cast<const Expr*>(rng.pick(pool)) : rng.pick(values);
-         if (rng.chance(5)) { v = p; C.count("self_bindings"); }
+         // the value is often a parameter itself, handed over under its own static type (ipr::Parameter, impl::Parameter) as a client
+         // holding a parameter would write it: one already in the domain (renaming chains, swaps), one outside it, the bound one
+         const Parameter* vp = nullptr;
+         if (rng.chance(30)) vp = (!model.empty() && rng.chance(60)) ? std::next(model.begin(), rng.below(model.size()))->first : rng.pick(pool);
+         const Expr* v = vp ? static_cast<const Expr*>(vp) : rng.pick(values);
+         if (rng.chance(8)) { vp = p; v = p; C.count("self_bindings"); }
          if (model.count(p)) C.count("rebindings");
+         if (vp && model.count(vp)) C.count("values_that_are_parameters_already_in_the_domain");
          // what subst returns is the substitution itself: further bindings may be given through it (chained calls)
-         auto&& ret = g.subst(*p, *v);
+         static unsigned long form = 0;
+         auto&& ret = !vp ? g.subst(*p, *v) : (++form % 3 == 0) ? g.subst(*p, static_cast<const Expr&>(*vp)) : (form % 3 == 1) ? g.subst(*p, *vp) : g.subst(*p, static_cast<const impl::Parameter&>(*vp));
+         if (vp) C.count("values_handed_over_as_parameters");
          if (static_cast<const void*>(&ret) != static_cast<const void*>(&g)) C.viol("general:subst-return", "subst does not return the substitution itself", where(i));
          model[p] = v;
          // a second general substitution living beside the first: bound to other values, asked in turn with the first
